@@ -142,6 +142,11 @@ def execute(sc, ctx):
     odb_cold = w.odb("cache", "local")
     odb_state = w.odb("cache2", "local", state=state)
     pools0 = executor.STATS["unordered_batches"]
+    if cfg.get("legacy_first", True):
+        # the same State was first warmed by a build under the LEGACY algorithm
+        # (rows named md5-dos2unix for the very same paths)
+        build(odb_state, ws, w.localfs, "md5-dos2unix", dry_run=True, checksum_jobs=cfg["jobs"])
+        routes += 1
     for route, odb in (("build-no-state", odb_cold), ("build-cold-state", odb_state), ("build-warm-state", odb_state)):
         _, meta, obj = build(odb, ws, w.localfs, "md5", dry_run=True, checksum_jobs=cfg["jobs"])
         check(route, obj.hash_info.value, obj.as_bytes())
@@ -173,6 +178,26 @@ def execute(sc, ctx):
         routes += 1
         if direct.hash_info.value != s_oid:
             ctx.violate("subdir-build-differs", f"depth{len(pref)}", f"prefix {pref}")
+    # -- replacing an existing entry after the tree has been queried ---------
+    if prefixes:
+        rel_in = sorted(r for r in ents if "/" in r)[prng.randrange(len([r for r in ents if "/" in r]))]
+        new_oid = model.ref_digest("md5", b"replaced:" + rel_in.encode())
+        full.add(tuple(rel_in.split("/")), None, HashInfo("md5", new_oid))
+        ents2 = dict(ents)
+        ents2[rel_in] = new_oid
+        for pref in prefixes:
+            if tuple(rel_in.split("/")[: len(pref)]) != pref:
+                continue
+            sub = {"/".join(r.split("/")[len(pref):]): o for r, o in ents2.items() if tuple(r.split("/")[: len(pref)]) == pref}
+            s_oid, _ = model.ref_dir(sub)
+            got = full.get_obj(odb_cold, pref)
+            routes += 1
+            if got is None or got.hash_info.value != s_oid:
+                ctx.violate("subtree-id-differs", "after-replacing-an-entry", f"prefix {pref}")
+        full.digest()
+        routes += 1
+        if full.hash_info.value != model.ref_dir(ents2)[0]:
+            ctx.violate("dir-id-differs", "after-replacing-an-entry", rel_in)
     # -- near misses must serialise differently ---------------------------
     base = Tree()
     for rel, oid in ents.items():
